@@ -110,6 +110,9 @@ partial def loopIO (hin : IO.FS.Stream) (hout : IO.FS.Stream) : IO Unit := do
   if line.isEmpty then return ()
   let f := line.trimAscii.toString.splitOn " "
   match f with
+  -- guard-page runs: the same decode, destination capacity = length; DPG = portable decoder
+  | ["DP", dl, fs, dictH, srcH] => hout.putStrLn (step s!"DA {dl} {dl} 0 {fs} {dictH} {srcH}")
+  | ["DPG", dl, fs, dictH, srcH] => hout.putStrLn (step s!"DG {dl} {dl} 0 {fs} {dictH} {srcH}")
   | "W" :: rest => hout.putStrLn (← Session.writerSession rest)
   | "R" :: rest => hout.putStrLn (← Session.readerSession rest)
   | "HD" :: rest => hout.putStrLn (Session.hdSession rest)
